@@ -13,6 +13,7 @@ from harness.common import (
     blocks_of, layout_blocks, layout_params, layout_pre, make_location, member, mult, same_blocks, sname, total_len, wellformed,
 )
 from vlib.obl import Obl
+from vlib.sym import concretize, untraced  # noqa
 from vlib.sym import MAX, MIN
 
 META = dict(
@@ -349,6 +350,43 @@ def many_blocks_fn(k, strand, op):
     return fn
 
 
+def many_many_fn(k, sa, sb, op):
+    """BOTH operands with many blocks (k x k block pairs; common length and gap each, one block of each operand shorter or longer - down to a ZERO-length
+    block, which overlaps nothing). Realised leg: the solver enumerates the layouts, the body runs natively and compares position sets."""
+
+    def fn(**kw):
+        names = sorted(kw)
+        vals = concretize(*[kw[n] for n in names])
+        kw = dict(zip(names, vals if isinstance(vals, list) else [vals]))
+        with untraced():
+            return bool(body(**kw))
+
+    def body(P, La, Lb, bs, d, e, at):
+        # both operands periodic with period P (so that they can interleave without sharing a position); block `at` of A is replaced by a block of length e
+        # (0 = empty) placed d bases into its period
+        A = [(P * i, P * i + La) for i in range(k)]
+        A[at] = (P * at + d, P * at + d + e)
+        B = [(bs + P * i, bs + P * i + Lb) for i in range(k)]
+        la, lb = make_location(A, sa, force_compound=True), make_location(B, sb, force_compound=True)
+        pa = {q for a, b in A for q in range(a, b)}
+        pb = {q for a, b in B for q in range(a, b)}
+        same = sa is sb
+        ov = bool(pa & pb)
+        if op == "has_overlap":
+            return (la.has_overlap(lb, match_strand=False) is ov and lb.has_overlap(la, match_strand=False) is ov
+                    and la.has_overlap(lb, match_strand=True) is (same and ov) and la.has_overlap(lb, match_strand=False, full_span=True) is (
+                        max(A[0][0], B[0][0]) < min(A[-1][1], B[-1][1])))
+        if op == "intersection":
+            res = la.intersection(lb, match_strand=False)
+            got = sorted(q for a, b in blocks_of(res) for q in range(a, b))
+            return got == sorted(pa & pb) and bool(wellformed(res))
+        if op == "contains":
+            return la.contains(lb, match_strand=False) is (bool(pb) and pb <= pa)
+        raise KeyError(op)
+
+    return fn
+
+
 # ------------------------------------------------------------------ unary operations
 def _unary_params(k, extra):
     p = dict(layout_params(k))
@@ -392,6 +430,22 @@ def optimize_fn(k, s, combine):
             res = la.optimize_and_combine_blocks()
             R = blocks_of(res)
             return AND(mult(p, R) == ITE(member(p, A), 1, 0), wellformed(res))
+        if combine.startswith("derived"):
+            # the questions are asked of a location RETURNED by a normaliser / set operation (rebuilt objects must not carry a stale overlap flag)
+            far = SingleInterval(A[-1][1] + MAX([a[1] for a in A]) + 7, A[-1][1] + MAX([a[1] for a in A]) + 9, s)
+            der = {"derived_optimize": lambda: la.optimize_blocks(), "derived_minus": lambda: la.minus(far),
+                   "derived_union": lambda: la.union_preserve_overlaps(far)}[combine]()
+            D = blocks_of(der)
+            if type(der) is not CompoundInterval:
+                return AND(mult(p, D) == mult(p, A), NOT(der.is_overlapping))
+            spec_ov = OR(*[AND(D[i][0] < D[j][1], D[j][0] < D[i][1]) for i in range(len(D)) for j in range(i + 1, len(D))]) if len(D) > 1 else False
+            conds = [IFF(der.is_overlapping, spec_ov)]
+            R = blocks_of(der.merge_overlapping())
+            conds.append(mult(p, R) == ITE(member(p, D), 1, 0))
+            for (s1, e1), (s2, e2) in zip(R, R[1:]):
+                conds.append(AND(s1 <= s2, e1 <= s2))
+            conds.append(mult(p, blocks_of(der.optimize_and_combine_blocks())) == ITE(member(p, D), 1, 0))
+            return AND(*conds)
         res = la.merge_overlapping()
         R = blocks_of(res)
         conds = [mult(p, R) == ITE(member(p, A), 1, 0) if la.is_overlapping else mult(p, R) == mult(p, A)]
@@ -655,6 +709,17 @@ def obligations(tier):
                                    _unary_params(k, {"p": int}), pre, budget=600, cost=60,
                                    desc="%s on overlapping/nested layouts (signed gaps)" % mode,
                                    bounds="k=%d blocks, signed gaps, unbounded ints" % k, examples=[ex]))
+                for mode in (("derived_optimize",) if quick else ("derived_optimize", "derived_minus", "derived_union")):
+                    if k == 2 and not quick:
+                        continue
+                    kk = 3
+                    ex3 = {"s0": 0, "p": 12, "l0": 10, "l1": 10, "g1": -5, "l2": 5, "g2": 0}
+                    out.append(Obl("%s_overlapping_k3_%s" % (mode, sname(s)), optimize_fn(kk, s, mode), _unary_params(kk, {"p": int}),
+                                   (lambda **kw: kw["s0"] >= 0 and all(kw["l%d" % i] >= 0 for i in range(3)) and all(st >= 0 for st, en in layout_blocks(3, kw))),
+                                   budget=900, cost=120,
+                                   desc="location RETURNED by %s on overlapping / nested / abutting / empty blocks: is_overlapping, merge_overlapping and "
+                                        "optimize_and_combine_blocks answer for the blocks it actually has" % mode.split("_")[1],
+                                   bounds="k=3 blocks, signed gaps, unbounded ints", examples=[ex3, dict(ex3, l2=0, g2=3), dict(ex3, g1=2)]))
                 out.append(Obl("gaps_overlapping_k%d_%s" % (k, sname(s)), gaps_fn(k, s, signed=True), _unary_params(k, {"p": int}), pre, budget=600, cost=30,
                                desc="gaps_location on overlapping/nested layouts: p in gaps <=> inside the span of the non-empty blocks and covered by no block",
                                bounds="k=%d blocks, signed gaps, unbounded ints" % k, examples=[ex, dict(ex, l0=40, l1=3, g1=-30, p=20)]))
@@ -668,6 +733,19 @@ def obligations(tier):
                            desc="%s of a 17-block location (common symbolic block length/gap, one longer block) and a single interval equals position-set semantics" % op,
                            bounds="17 x 1 blocks, unbounded symbolic start/length/gap/extra/interval/probe",
                            examples=[dict(s0=100, L=7, G=3, x=2, bs=118, bl=40, p=130), dict(s0=0, L=1, G=1, x=0, bs=5, bl=1, p=5)]))
+    for sa, sb in ((PLUS, PLUS), (PLUS, MINUS)):
+        for op in (("has_overlap",) if quick else ("has_overlap", "intersection", "contains")):
+            if quick and sa is not sb:
+                continue
+            out.append(Obl("%s_many_many_k12_%s_%s" % (op, sname(sa), sname(sb)), many_many_fn(12, sa, sb, op),
+                           dict(P=int, La=int, Lb=int, bs=int, d=int, e=int, at=int),
+                           lambda P, La, Lb, bs, d, e, at: 6 <= P and P <= 7 and 2 <= La and La <= 3 and 2 <= Lb and Lb <= 3 and 0 <= bs and bs <= 13 and 0 <= d and
+                           0 <= e and e <= 1 and d + e <= P and (at == 1 or at == 6 or at == 10),
+                           budget=1800, cost=240, twin=True,
+                           desc="%s of two 12-block locations (144 block pairs) that interleave with a common period, one block of the first replaced by an empty or "
+                                "1-nt block placed anywhere in its period, equals position-set semantics (a zero-length block overlaps nothing)" % op,
+                           bounds="12 x 12 blocks; period 6..7, block lengths 2..3, second operand shifted by 0..13, replaced block 1/6/10 of length 0..1 at every offset (realised)",
+                           examples=[dict(P=7, La=2, Lb=3, bs=3, d=4, e=0, at=6), dict(P=6, La=3, Lb=2, bs=9, d=0, e=1, at=1)]))
     for o in out:
         if o.kind == "crosshair":
             o.fn = operands_unchanged(o.fn)
